@@ -5,11 +5,15 @@ package main
 
 import (
 	"os"
+	"syscall"
 
 	"verifharness/hx"
 )
 
 func main() {
+	// a queue with an enormous Depth must not allocate it: with a cap on the address space an attempt to do so fails at
+	// once (process death, reported as a violation) instead of reserving tens of gigabytes
+	_ = syscall.Setrlimit(syscall.RLIMIT_AS, &syscall.Rlimit{Cur: 6 << 30, Max: 6 << 30})
 	if len(os.Args) >= 2 && os.Args[1] == "child-stress" {
 		stressChild(os.Args[2:])
 		return
